@@ -8,6 +8,8 @@ a bounded matrix universe and prints each instance with the expected results.
 Binding: every printed scenario is replayed into the real code (HTML box ->
 recorded backend Transform call; SVG element -> recorded Transform; matrix
 package API) and compared with the specification's integers.
+Variants: the transform declared in a rule shared by two elements of different font size with em lengths; every separator
+SVG allows between the functions of a list.
 """
 import os
 from vlib import MachineryError
